@@ -493,7 +493,9 @@ def run_property(modname: str, tier: str, base_seed: int, only: Optional[List[st
             raise HarnessError(payload)
         for name, ev, vio in payload:
             results[name].append(ev)
-            if vio is not None:
+            if vio is not None and not any(
+                v["subcheck"] == vio["subcheck"] and v["detail"] == vio["detail"] for v in violations
+            ):
                 violations.append(vio)
 
     if par:
@@ -589,6 +591,8 @@ def run_property(modname: str, tier: str, base_seed: int, only: Optional[List[st
             f"non-trivial, {m['wall_s']:.1f}s"
             + (f", known-finding hits excluded {m['known_hits']}" if m["known_hits"] else "")
         )
+        if os.environ.get("NSSVERIF_VERBOSE"):
+            print("     labels:", dict(sorted(m["labels"].items())))
 
     # 5. report
     if violations:
